@@ -280,6 +280,11 @@ impl SortableStrVec {
         if offset > (CompactEntry::MAX_OFFSET >> 1) && offset + length > CompactEntry::MAX_OFFSET {
             return Err(ZiporaError::out_of_memory(offset + length));
         }
+        // The entry keeps the length in 20 bits: a longer string would spill into the seq_id bits
+        // and read back truncated (get() of a 1 MiB string returned "")
+        if length > CompactEntry::MAX_LENGTH {
+            return Err(ZiporaError::out_of_memory(length));
+        }
 
         // Simplified sequence ID (faster than atomic ops for each string)
         let seq_id = (self.entries.len() & 0xF) as u8;
